@@ -379,3 +379,6 @@ def run(ctx):
     # ------------------------------------------------ evaluation order (shared with C02)
     from .C02 import engine_evaluation_order
     engine_evaluation_order(ctx)
+    # drop-in prekill hooks: priority order and removal only with their tag (same rule as C07)
+    from .C07 import hook_list_rule
+    hook_list_rule(ctx)
